@@ -2,7 +2,7 @@
    Theorems only.  Model: Model/Alloc.v with the allocator program regenerated into Gen/Alloc.v. *)
 From SG Require Import Base.Prelude Model.AllocLang Model.Alloc Gen.Alloc Proofs.AllocProofs Gen.Dispatcher Model.DispatchLoop Proofs.DispatchLoopProofs.
 From Coq Require Import Sorting.Sorted Sorting.Permutation.
-From SG Require Import Base.PyRt Gen.HandOver Model.HandOver Proofs.HandOverProofs.
+From SG Require Import Base.PyRt Gen.HandOver Model.HandOver Proofs.HandOverProofs Gen.Request Model.Request Proofs.RequestProofs.
 Open Scope Z_scope.
 
 (* the regenerated allocator: the expected micro-operations, inside the lock *)
@@ -117,3 +117,24 @@ Theorem C06_before_D78_refuted :
    map (fun x => (mid (fst x), snd x)) (app s) = [(1, true); (2, true); (3, true)]%nat /\ quiet s = true).
 Proof. exact (conj before_D78_refuted after_D78_same_schedule). Qed.
 Print Assumptions C06_before_D78_refuted.
+
+(* "Each caller receives exactly the reply whose system bytes match its own request (or a timeout if none arrives)."  The steps of
+   Protocol.send_and_waitfor_response are read statement by statement on every run (harness/gen_request.py -> Gen/Request.v: allocate, register a
+   NEW waiter, send, on failure remove and return nothing, wait, remove, return).  A thread that makes any number of calls one after the
+   other, against arrivals of anything that carries the system bytes of a request that was sent - replies, late replies, duplicates - at any
+   moment and any number of times, timers that run out and sends that fail, in any order: every call returns nothing, or a message with the
+   system bytes of its own request. *)
+Theorem C06_a_call_returns_its_own_reply : forall calls sched,
+  Forall res_ok (results (rrun request_ops (rstart request_ops calls) sched)).
+Proof. exact requests_answered_by_their_own_replies. Qed.
+Print Assumptions C06_a_call_returns_its_own_reply.
+
+(* the two ways this goes wrong: registering behind the send (a quick reply finds nobody registered: it goes to the application, the call comes
+   back empty) and a waiter kept from one request to the next (the second copy of the first reply answers the second request) *)
+Theorem C06_request_steps_refuted :
+  (let s := rrun register_after_send (rstart register_after_send 1) [RStep; RStep; RArrive 1; RStep; RTimeout; RStep; RStep] in
+   results s = [(1, None)] /\ rapp s = [1])%nat /\
+  (let s := rrun reused_waiter (rstart reused_waiter 2) [RStep; RStep; RStep; RArrive 1; RArrive 1; RStep; RStep; RStep; RStep; RStep; RStep; RStep; RStep; RStep] in
+   results s = [(1, Some 1); (2, Some 1)])%nat.
+Proof. exact (conj register_after_send_refuted reused_waiter_refuted). Qed.
+Print Assumptions C06_request_steps_refuted.
